@@ -428,10 +428,18 @@ func makeKey(si suiteInfo, m oprf.Mode, r *lib.Rng, mon string) *oprfKey {
 	case 0, 1, 2:
 		seed := edgeBytes(r, 32)
 		info := r.Bytes(lib.Pick(r, 0, 0, 1, 8, 40, 300))
-		sk, err := oprf.DeriveKey(su, m, seed, info)
+		// seed and info are handed over the way a caller slicing one received
+		// buffer holds them: adjacent, the seed's capacity reaching over the info
+		frame := append(append(append([]byte{}, seed...), info...), 0xA5, 0x5A, 0xA5, 0x5A, 0xA5, 0x5A, 0xA5, 0x5A)
+		frame = append([]byte(nil), frame...)
+		frame0 := lib.Clone(frame)
+		sk, err := oprf.DeriveKey(su, m, frame[:len(seed)], frame[len(seed):len(seed)+len(info)])
 		if err != nil {
 			lib.Violation("C16:error:oprf.DeriveKey", mon, lib.D("suite", su.Identifier(), "mode", m, "seed", seed, "info", info, "err", err))
 			return nil
+		}
+		if !lib.Eq(frame, frame0) {
+			lib.Violation("C16:argument-memory-written:oprf.DeriveKey", mon, lib.D("suite", su.Identifier(), "mode", m, "before", frame0, "after", frame))
 		}
 		skb, _ := sk.MarshalBinary()
 		lib.Count("key:derived")
